@@ -124,3 +124,105 @@ def prove(run):
     run.extra.setdefault("symx", {})["C18_kernel_stub"] = {"label_patterns": len(pats), "modes": [list(map(str, x)) for x in MODES], "cases": ncase, "kernel_stubs": SH.KERNEL_STUBS}
     if ncase == 0:
         run.crash("C18_kernel: no case generated")
+
+
+def prove_eigh(run):
+    """eigh_qn (density-matrix path of the state-averaged sweeps) in kernel-stub mode: every symmetry block of the input is built as V diag(w) V^H from indeterminate V
+    and fixed positive w, the forbidden entries are independent indeterminates, and `scipy.linalg.eigh` as seen from svd_qn returns exactly those factors for the
+    block it is handed.  Decided exactly per label pattern: only sectors with a partner label on the complementary side are kept; u diag(s^2) u^H restores exactly
+    those blocks; the label of every column describes its support; s = sqrt(w)."""
+    import renormalizer.mps.svd_qn as sq
+    from fractions import Fraction
+    pats = []
+    for m in (1, 2, 3):
+        for n in (1, 2):
+            for ql in itertools.product(range(3), repeat=m):
+                for qr in itertools.combinations_with_replacement(range(3), n):
+                    for tot in range(0, 4):
+                        pats.append((tuple((a,) for a in ql), tuple((b,) for b in qr), (tot,)))
+    alpha = [(0, 0), (0, 1), (1, 0), (1, 1)]
+    for m in (2, 3):
+        for ql in itertools.combinations_with_replacement(alpha, m):
+            for qr in itertools.combinations_with_replacement(alpha, 2):
+                for tot in ((1, 1), (1, 0), (2, 1)):
+                    pats.append((ql, qr, tot))
+    if run.tier == "quick":
+        pats = pats[::2]
+    ncase = 0
+    for ql, qr, tot in pats:
+        qs = len(tot)
+        qn_sys = np.array(ql).reshape(len(ql), qs)
+        qn_comp = np.array(qr).reshape(len(qr), qs)
+        qntot = np.array(tot)
+        m = len(ql)
+        for system in ("L", "R"):
+            vf = VarFactory()
+            dm = vf.array((m, m))                    # forbidden / skipped entries: independent indeterminates
+            registry = []
+            kept_rows = []
+            for lab in sorted({tuple(x) for x in qn_sys}):
+                rows = [i for i in range(m) if tuple(qn_sys[i]) == lab]
+                partner = bool(np.any(np.all(qn_comp == qntot - np.array(lab), axis=1)))
+                k = len(rows)
+                V = vf.array((k, k))
+                w = np.array([4.0 ** (1 - j) for j in range(k)])      # perfect squares: sqrt is exact in floating point
+                B = (V * np.array([Poly.const(Fraction(float(x))) for x in w], dtype=object)[None, :]).dot(np.vectorize(lambda x: Poly.coerce(x).conjugate(), otypes=[object])(V).T)
+                for a_, i in enumerate(rows):
+                    for b_, j in enumerate(rows):
+                        dm[i, j] = B[a_, b_]
+                registry.append((B, w, V))
+                if partner:
+                    kept_rows.append((lab, rows, B))
+            ncase += 1
+            tag = f"eigh-{system}:{ql}|{qr}|{tot}"
+            case = {"system": system, "labels_system_side": [list(map(int, x)) for x in qn_sys], "labels_complementary_side": [list(map(int, x)) for x in qn_comp], "qntot": list(map(int, qntot))}
+
+            def stub_eigh(block, *a, **k):
+                block = np.asarray(block, dtype=object)
+                for B, w, V in registry:
+                    if B.shape == block.shape and all(Poly.coerce(x) == Poly.coerce(y) for x, y in zip(B.reshape(-1), block.reshape(-1))):
+                        return w.copy(), V
+                raise AssertionError("kernel stub: eigh called on a block that is not one of the symmetry blocks of the input")
+
+            class Lin:
+                eigh = staticmethod(stub_eigh)
+
+                def __getattr__(self, name):
+                    import scipy.linalg
+                    return getattr(scipy.linalg, name)
+
+            class Sc:
+                linalg = Lin()
+            qnl, qnr = (qn_sys, qn_comp) if system == "L" else (qn_comp, qn_sys)
+            with SH.symbolic_mode():
+                saved = sq.scipy
+                sq.scipy = Sc()
+                try:
+                    u, s_, nq = sq.eigh_qn(dm.copy(), qnl, qnr, qntot, system)
+                except Exception as e:
+                    sq.scipy = saved
+                    if not kept_rows and isinstance(e, ValueError):
+                        # no sector has a partner: nothing to return (np.concatenate of an empty list) - outside the function's domain
+                        continue
+                    decide_true(run, f"post:eigh_qn:total@{tag}", "eigh_qn", False, f"raised on an indeterminate density matrix with stubbed eigh: {type(e).__name__}: {e}", case)
+                    continue
+                finally:
+                    sq.scipy = saved
+            u = np.asarray(u, dtype=object)
+            want = np.empty((m, m), dtype=object)
+            want.fill(Poly())
+            for lab, rows, B in kept_rows:
+                for a_, i in enumerate(rows):
+                    for b_, j in enumerate(rows):
+                        want[i, j] = B[a_, b_]
+            s2 = np.array([Poly.const(Fraction(float(x)) ** 2) for x in np.asarray(s_, dtype=float)], dtype=object)
+            rec = (u * s2[None, :]).dot(np.vectorize(lambda x: Poly.coerce(x).conjugate(), otypes=[object])(u).T)
+            decide(run, f"post:eigh_qn:restores_exactly_the_partnered_sectors@{tag}", "eigh_qn", rec, want, case)
+            nq_ = np.array(nq).reshape(-1, qs)
+            bad = [(i, k) for k in range(u.shape[1]) for i in range(m) if bool(Poly.coerce(u[i, k])) and not np.all(qn_sys[i] == nq_[k])]
+            nocomp = [k for k in range(len(nq_)) if not np.any(np.all(qn_comp == qntot - nq_[k], axis=1))]
+            decide_true(run, f"post:eigh_qn:labels_describe_the_support_and_have_a_partner@{tag}", "eigh_qn", not bad and not nocomp and u.shape[1] == len(nq_) == len(s_) == sum(len(r) for _, r, _ in kept_rows),
+                        f"support/label mismatch {bad[:2]}, columns without partner label {nocomp[:2]}, shapes {u.shape[1]}/{len(nq_)}/{len(s_)}", case)
+    run.extra.setdefault("symx", {})["C18_eigh_qn"] = {"cases": ncase}
+    if ncase == 0:
+        run.crash("C18_kernel.prove_eigh: no case generated")
